@@ -273,6 +273,18 @@ func forEachCase(files []corpusFile, thorough bool, f func(idx int, c caseDesc, 
 				}
 			}
 		}
+		// words dropped: every single word, and every run of two or three adjacent words ("property list uchar int
+		// vertex_index" turns into a scalar property, a count disappears, a keyword goes missing)
+		for wi := range words {
+			for run := 1; run <= 3 && wi+run <= len(words); run++ {
+				wi, run := wi, run
+				if !emit(caseDesc{File: cf.Name, Kind: "word", Pos: wi, Alt: 1000 + run}, func() []byte {
+					return repl(d, []int{words[wi][0], words[wi+run-1][1]}, "")
+				}) {
+					return
+				}
+			}
+		}
 		if thorough {
 			// two-field corruptions: every pair of tokens over a reduced alphabet
 			small := []int{0, 1, 4, 6, 7, 8, 9, 12}
